@@ -148,7 +148,8 @@ theorem C07_fuel_adequate (text : Text) (g : Nat) (h : text.length ≤ g) :
     not only names already made of `name_regexp` characters; a name starting with `dap4` only when its first 8
     characters are `name_regexp` characters) parses to exactly the structure it declares (`declDs`:
     same kinds and order; every name quoted as pydap carries names (`_quote`, the identity on `name_regexp` names);
-    parser dtype of the declared type; declared extents; the names of the named dimensions).
+    parser dtype of the declared type; declared extents; the dimension names when ALL dimensions of the declaration are
+    named — a declaration naming only some of them declares its shape and no names, `fitDims`).
     Hypotheses (`FWFds`): keywords spell their word in some letter case; type words are keys of the parser's table and
     not `grid`/`sequence`/`structure`; gaps are white space; extents ≥ 0 and dimension names in `name_regexp`;
     the QUOTED names of siblings are distinct. -/
@@ -182,9 +183,8 @@ theorem C07_tree_order (d : Dataset) (s : Text) (hwf : WFds d) (hp : printDs d =
     (raw names included: they are quoted into `name_regexp`, `RawNameOk.quoted`) prints (every dtype of the parser's
     table is one the printer knows), and that DDS `s` is a reference text in the sense of the first half of the
     property: it parses to a dataset `d₂` with the skeleton the foreign text declared (kinds, names, order of members
-    and of a Grid's maps as DECLARED), and `d₂` prints `s` again exactly.  Shapes and dimension names of `d₂`: see
-    `C07_foreign_reprint_same` (declarations naming all dimensions or none) and
-    `C07_foreign_reprint_same_refuted` (a declaration naming only some). -/
+    and of a Grid's maps as DECLARED), and `d₂` prints `s` again exactly.  Shapes and dimension names of `d₂`:
+    `C07_foreign_reprint_same`. -/
 theorem C07_foreign_reprint (d : FDataset) (hwf : FWFds d) :
     ∃ d₁ s, parseDds (ftextDs d) = .ok d₁ ∧ printDs d₁ = .ok s ∧
       ∃ d₂, parseDds s = .ok d₂ ∧ skelDs d₂ = skelDs (declDs d) ∧ printDs d₂ = .ok s := by
@@ -193,33 +193,22 @@ theorem C07_foreign_reprint (d : FDataset) (hwf : FWFds d) :
   exact ⟨declDs d, s, foreign_parse d hwf, hs, normDs (declDs d), parse_print _ s hs hw, normDs_skel _,
     by rw [printDs_norm, hs]⟩
 
-/-- The same with the whole structure, not only the skeleton: when every declaration of the foreign text names all of
-    its dimensions or none (`FUniformDs`; the property's "with or without named dimensions"), the dataset parsed from
-    pydap's re-rendering is the same tree of variables as the one the foreign text declared — kinds, names, order,
-    DAP2 types, shapes, dimension names (`SameDs`). -/
-theorem C07_foreign_reprint_same (d : FDataset) (hwf : FWFds d) (hu : FUniformDs d) :
+/-- The same with the whole structure, not only the skeleton, for EVERY foreign text (full statement; until the repair of
+    round 7 it was false — see below): the dataset parsed from pydap's re-rendering is the same tree of variables as the one
+    the foreign text declared — kinds, names, order, DAP2 types, shapes, dimension names (`SameDs`).
+    The repair: `Dataset { Int32 a[x = 2][3]; } d;` (legal DAP2: one dimension named, one not) used to parse to shape
+    (2, 3) with `dims = ('x',)`; a tuple of names cannot say which axes it names, `dds()` pairs names with extents by `zip`,
+    and the dataset was printed as `Int32 a[x = 2];` — an extent lost (found by this audit as the refutation of this very
+    statement, replayed on the code, repaired in `parsers/dds.py base()`: such a declaration keeps its shape and gets no
+    dimension names, model `fitDims`).  What a foreign text declares is now always one of the property's trees
+    (`declDs_dimsFit`), so no hypothesis on the dimensions is needed. -/
+theorem C07_foreign_reprint_same (d : FDataset) (hwf : FWFds d) :
     ∃ d₁ s d₂, parseDds (ftextDs d) = .ok d₁ ∧ printDs d₁ = .ok s ∧ parseDds s = .ok d₂ ∧ SameDs (declDs d) d₂ ∧
       printDs d₂ = .ok s := by
   obtain ⟨hw, hpr⟩ := declDs_wf d hwf
   obtain ⟨s, hs⟩ := printDs_ok (declDs d) hpr
   exact ⟨declDs d, s, normDs (declDs d), foreign_parse d hwf, hs, parse_print _ s hs hw,
-    sameDs_norm _ (declDs_dimsFit d hu), by rw [printDs_norm, hs]⟩
-
-/-- `FUniformDs` cannot be dropped.  `Dataset { Int32 a[x = 2][3]; } d;` (legal DAP2: one dimension named, one not)
-    parses as declared — shape (2, 3), dimension names ('x',) — but `BaseType.dims` no longer says which axis is named
-    and `dds()` pairs names with extents by `zip`: it is printed as `Int32 a[x = 2];`, and that text declares shape (2,).
-    An extent is lost on re-rendering.  Outside the property's quantifier as read so far ("with or without named
-    dimensions"); observed and counted by the harness (`feature:foreign-partially-named-dimensions`), not judged. -/
-theorem C07_foreign_reprint_same_refuted :
-    ¬ (∀ (d : FDataset), FWFds d →
-        ∃ d₁ s d₂, parseDds (ftextDs d) = .ok d₁ ∧ printDs d₁ = .ok s ∧ parseDds s = .ok d₂ ∧ SameDs (declDs d) d₂) := by
-  intro h
-  obtain ⟨d₁, s, d₂, h1, h2, h3, h4⟩ := h partNamedWitness partNamedWitness_wf
-  rw [foreign_parse _ partNamedWitness_wf] at h1
-  cases h1
-  rw [parse_print _ s h2 (declDs_wf _ partNamedWitness_wf).1] at h3
-  cases h3
-  exact partNamedWitness_not_same h4
+    sameDs_norm _ (declDs_dimsFit d), by rw [printDs_norm, hs]⟩
 
 /-! ### non-vacuity (samples and their well-formedness proofs: `Proofs/DdsSamples.lean`) -/
 
@@ -358,12 +347,16 @@ example : ∃ d₁ s, parseDds (ftextDs fsampleRaw) = .ok d₁ ∧ printDs d₁ 
   let ⟨d₁, s, h1, h2, _⟩ := C07_foreign_reprint fsampleRaw fsampleRaw_wf
   ⟨d₁, s, h1, h2⟩
 
--- `C07_foreign_reprint_same`: both foreign samples name all dimensions of a declaration or none
-example : FUniformDs fsampleRaw := by
-  simp [FUniformDs, fsampleRaw, FUniformL, FUniformT, FUniformB]
+-- `C07_foreign_reprint_same` on the former counter-example `Dataset { Int32 a[x = 2][3]; } d;`: in the domain, declares
+-- shape (2, 3) without dimension names, and the re-rendered DDS parses to that same tree
+example : FWFds partNamedWitness := partNamedWitness_wf
 
-example : FWFds partNamedWitness ∧ ¬ FUniformDs partNamedWitness :=
-  ⟨partNamedWitness_wf, by simp [FUniformDs, partNamedWitness, FUniformL, FUniformT, FUniformB]⟩
+example : parseDds (ftextDs partNamedWitness) = .ok ⟨['d'], [.base ⟨['a'], ">i".toList, [2, 3], [], true⟩]⟩ := by
+  rw [C07_foreign _ partNamedWitness_wf, partNamedWitness_decl]
+
+example : ∃ d₁ s d₂, parseDds (ftextDs partNamedWitness) = .ok d₁ ∧ printDs d₁ = .ok s ∧ parseDds s = .ok d₂ ∧
+    SameDs (declDs partNamedWitness) d₂ ∧ printDs d₂ = .ok s :=
+  C07_foreign_reprint_same _ partNamedWitness_wf
 
 /-! ### the tie by translation: the *source text* of every line the DDS printer yields is the model's text
 
